@@ -20,6 +20,7 @@ package keep_fields
 // path-tree lookup and at the recursive call, not at source anchors.
 
 //@ func (*Plugin).traverseFieldsTree
+//@   option check-nil yes
 //@   requires 0 <= depth && uf_height(ref(fpNode.children)) >= 0 && depth + uf_height(ref(fpNode.children)) <= len(p.fieldsDepthSlice)
 //@   requires len(fpNode.children) != 0 ==> uf_height(ref(fpNode.children)) >= 1
 //@   requires forall k :: depth <= k && k < len(p.fieldsDepthSlice) ==> len(p.fieldsDepthSlice[k]) == 0
@@ -118,6 +119,7 @@ package keep_fields
 // Not derivable: height of the tree == longest path (maps not modelled); Do requires it.
 
 //@ func (*Plugin).Start
+//@   option check-nil yes
 //@   option allow-exit yes
 //@   ghost nparse int = 0
 //@   ghost gref int = 0
